@@ -199,14 +199,5 @@ pub fn meta(prop: Prop) -> Meta {
             stub: &["peers, encoder, record layer, byte pipe / datagram net", "explicit single-record loop"],
             assumptions: &["the single-record parser is the specification of the many-parser (relation between two real functions)"],
         },
-        _ => Meta {
-            level: "exploration",
-            rule: "",
-            fault_kinds: &[],
-            cell_spaces: vec![],
-            real: &[],
-            stub: &[],
-            assumptions: &[],
-        },
     }
 }
